@@ -198,7 +198,6 @@ Definition guard_js (c : jcase) : bool :=
   Nat.eqb (length (jstructs_of_order c)) (length (jc_order c)) &&
   (let sv := jspec_view c in
    forallb (fun sd => c11_guard (jc_pkg c) (jc_flags c) (jc_fuel c) sd &&
-                      accessor_names_unique (jc_pkg c) sv (jc_fuel c) sd &&
                       accessors_visible (jc_pkg c) sv (jc_fuel c) sd &&
                       not_self_embedded (jc_pkg c) (jc_fuel c) sd &&
                       complete_view c sd &&
@@ -226,10 +225,9 @@ Definition aligned_js (c : jcase) : bool :=
 
 (* verdicts as in CtorGetSetCorr *)
 Definition jverdict (c : jcase) : N :=
-  if existsb (fun o => N.eqb (jo_status o) 5) (jc_structs c) then 3%N
-  else if guard_js c && aligned_js c then
+  if guard_js c && aligned_js c then
     if Pb_js c then (if agree_js c then 0%N else 1%N) else 2%N
-  else if existsb (fun o => N.eqb (jo_status o) 3) (jc_structs c) || existsb shadow_keys_collide (jc_structs c) ||
+  else if existsb (fun o => negb (N.eqb (jo_status o) 0)) (jc_structs c) || existsb shadow_keys_collide (jc_structs c) ||
           agree_js c then 3%N else 1%N.
 
 Fixpoint jmismatches_from (i : N) (cs : list jcase) : list (N * N) :=
